@@ -1,7 +1,7 @@
 (** C04 — secure finite-field arithmetic equals field arithmetic.  Only statements; proofs are in
     theories/SecFld.v (value-level model of runtime.pow / reciprocal / is_zero / is_zero_public /
     and_ / xor / invert / or_ / to_bits / from_bits and of the lifting in sectypes._SecFld). *)
-Require Import MPyC.Field MPyC.Zp MPyC.SecFld.
+Require Import MPyC.Field MPyC.Zp MPyC.Fermat MPyC.SecFld.
 From Coq Require Import NArith ZArith Znumtheory List.
 Import ListNotations.
 Local Open Scope nat_scope.
@@ -48,34 +48,51 @@ Theorem C04_div_correct :
 Proof. exact div_sec_correct. Qed.
 Print Assumptions C04_div_correct.
 
-(** ** == / != via a^(q-1): exact in every field of order q satisfying Fermat (hypothesis), and
-    Fermat holds by computation for the concrete small prime fields below.
-    PARTIAL (is_zero_fermat): a^(q-1) = 1 is a hypothesis for general q (no proof of Lagrange's
-    theorem for abstract finite fields here); discharged for Z_p, p in {2,3,5,7,11,13,101,257}, and GF(4). *)
-Theorem C04_is_zero_fermat_partial :
+(** ** Fermat's little theorem for ANY finite field given with an enumeration of its elements
+    (x |-> a x permutes the nonzero elements); q = length elts *)
+Theorem C04_fermat_finite_field :
+  forall (K : FieldT) (elts : list K), NoDup elts -> (forall x : K, In x elts) ->
+    forall a : K, a <> f0 K -> fpow a (length elts - 1) = f1 K.
+Proof. exact fermat_finite_field. Qed.
+Print Assumptions C04_fermat_finite_field.
+
+(** ** is_zero / == / != via a^(q-1) are exact in EVERY enumerated finite field (no Fermat
+    hypothesis left), q = number of elements as passed by the code (field.order) *)
+Theorem C04_is_zero_fermat :
+  forall (K : FieldT) (elts : list K), NoDup elts -> (forall x : K, In x elts) ->
+    forall a : K, is_zero (Z.of_nat (length elts)) a = if feq_dec K a (f0 K) then f1 K else f0 K.
+Proof. exact is_zero_finite. Qed.
+Print Assumptions C04_is_zero_fermat.
+
+Theorem C04_eq_correct :
+  forall (K : FieldT) (elts : list K), NoDup elts -> (forall x : K, In x elts) ->
+    forall a b : K, eq_sec (Z.of_nat (length elts)) a b = (if feq_dec K a b then f1 K else f0 K)
+                 /\ ne_sec (Z.of_nat (length elts)) a b = (if feq_dec K a b then f0 K else f1 K).
+Proof. intros K elts Hnd Hall a b. split; [apply eq_sec_finite|apply ne_sec_finite]; assumption. Qed.
+Print Assumptions C04_eq_correct.
+
+(** instance: Z_p for EVERY prime p (elements enumerated as 0 .. p-1), exponent p - 1 *)
+Theorem C04_fermat_Zp :
+  forall (p : Z) (Hp : prime p) (a : Zp p),
+    a <> f0 (ZpOps p) -> fpow (K := ZpOps p) a (Z.to_nat (p - 1)) = f1 (ZpOps p).
+Proof. exact fermat_Zp. Qed.
+Print Assumptions C04_fermat_Zp.
+
+Theorem C04_eq_correct_Zp :
+  forall (p : Z) (Hp : prime p) (a b : Zp p),
+    is_zero (K := ZpOps p) p a = (if Zp_dec p a (f0 (ZpOps p)) then f1 (ZpOps p) else f0 (ZpOps p)) /\
+    eq_sec (K := ZpOps p) p a b = (if Zp_dec p a b then f1 (ZpOps p) else f0 (ZpOps p)) /\
+    ne_sec (K := ZpOps p) p a b = (if Zp_dec p a b then f0 (ZpOps p) else f1 (ZpOps p)).
+Proof. intros p Hp a b. split; [apply zp_is_zero_correct; exact Hp|apply zp_eq_correct; exact Hp]. Qed.
+Print Assumptions C04_eq_correct_Zp.
+
+(** the version with Fermat as an explicit hypothesis (any q), kept as the lemma the above instantiate *)
+Theorem C04_is_zero_given_fermat :
   forall (K : FieldT) (q : Z), (2 <= q)%Z ->
     (forall a : K, a <> f0 K -> fpow a (Z.to_nat (q - 1)) = f1 K) ->
     forall a : K, is_zero q a = if feq_dec K a (f0 K) then f1 K else f0 K.
 Proof. exact is_zero_fermat. Qed.
-Print Assumptions C04_is_zero_fermat_partial.
-
-Theorem C04_eq_correct_partial :
-  forall (K : FieldT) (q : Z), (2 <= q)%Z ->
-    (forall a : K, a <> f0 K -> fpow a (Z.to_nat (q - 1)) = f1 K) ->
-    forall a b : K, eq_sec q a b = (if feq_dec K a b then f1 K else f0 K)
-                 /\ ne_sec q a b = (if feq_dec K a b then f0 K else f1 K).
-Proof. intros K q Hq Hf a b. split; [apply eq_sec_correct|apply ne_sec_correct]; assumption. Qed.
-Print Assumptions C04_eq_correct_partial.
-
-Theorem C04_fermat_small_primes :
-  forall p : Z, In p [2; 3; 5; 7; 11; 13; 101; 257]%Z ->
-    forall a : Zp p, a <> f0 (ZpOps p) -> fpow (K := ZpOps p) a (Z.to_nat (p - 1)) = f1 (ZpOps p).
-Proof.
-  intros p Hp. simpl in Hp.
-  repeat (destruct Hp as [<-|Hp]; [apply fermat_by_computation; [reflexivity|vm_compute; reflexivity]|]).
-  contradiction.
-Qed.
-Print Assumptions C04_fermat_small_primes.
+Print Assumptions C04_is_zero_given_fermat.
 
 (** ** public zero test: correct iff the mask is nonzero *)
 Theorem C04_is_zero_public :
@@ -128,9 +145,10 @@ Print Assumptions C04_to_bits_prime_roundtrip.
 
 (** ** lifting (m >= q): for ANY field embedding iota : K -> L and out-conversion inverting it,
     every operator applied to lifted values returns, after out-conversion, the result in the
-    requested field K.  PARTIAL (lift_correct): iota being a ring homomorphism with
-    out_conv (iota a) = a is a hypothesis; it is discharged for GF(2) in GF(4) below, for the other
-    (q, e) it is left to the correspondence run (prime-subfield embedding as constants). *)
+    requested field K (== through Fermat in the enumerated finite field L, no hypothesis).
+    PARTIAL (lift_correct): iota being a ring homomorphism with out_conv (iota a) = a is a
+    hypothesis; it is discharged for GF(2) in GF(4) below, for the other (q, e) it is left to the
+    correspondence run (prime-subfield embedding as constants). *)
 Theorem C04_lift_correct_partial :
   forall (K L : FieldT) (iota : K -> L),
     iota (f1 K) = f1 L ->
@@ -145,13 +163,13 @@ Theorem C04_lift_correct_partial :
          unlift (div_sec recip (iota a) (iota b)) = Some (fdiv K a b)) /\
       (forall (recip : L -> L) (n : Z), ((n < 0)%Z -> a <> f0 K /\ recip (iota a) = finv L (iota a)) ->
          unlift (pow recip (iota a) n) = Some (fzpow K a n)) /\
-      (forall qL : Z, (2 <= qL)%Z -> (forall x : L, x <> f0 L -> fpow x (Z.to_nat (qL - 1)) = f1 L) ->
-         unlift (eq_sec qL (iota a) (iota b)) = Some (if feq_dec K a b then f1 K else f0 K)).
+      (forall eltsL : list L, NoDup eltsL -> (forall x : L, In x eltsL) ->
+         unlift (eq_sec (Z.of_nat (length eltsL)) (iota a) (iota b)) = Some (if feq_dec K a b then f1 K else f0 K)).
 Proof.
   intros K L iota H1 Ha Hm unlift Hu a b.
   split; [apply lift_add; assumption|]. split; [apply lift_sub; assumption|].
   split; [apply lift_mul; assumption|]. split; [intros; apply lift_div; assumption|].
-  split; [intros; apply lift_pow; assumption|]. intros qL Hq Hf. apply lift_eq; assumption.
+  split; [intros; apply lift_pow; assumption|]. intros eltsL Hnd Hall. apply lift_eq_finite; assumption.
 Qed.
 Print Assumptions C04_lift_correct_partial.
 
@@ -174,6 +192,19 @@ Example C04_nonvacuous_lift :
 Proof.
   split; [reflexivity|]. split; [intros [|] [|]; reflexivity|]. split; [intros [|] [|]; reflexivity|].
   split; [intros [|]; reflexivity|]. split; [exact GF4_fermat|reflexivity].
+Qed.
+
+(** the enumeration hypotheses hold for Z_101 (0..100) and for GF(4); == through the protocol formula *)
+Example C04_nonvacuous_finite :
+  prime 101 /\ NoDup (zp_elts 101) /\ (forall x : Zp 101, In x (zp_elts 101)) /\ length (zp_elts 101) = 101 /\
+  NoDup GF4_elts /\ (forall x : GF4Field, In x GF4_elts) /\
+  eq_sec (K := GF4Field) (Z.of_nat (length GF4_elts)) (true, true) (true, true) = f1 GF4Field /\
+  eq_sec (K := GF4Field) (Z.of_nat (length GF4_elts)) (true, true) (false, true) = f0 GF4Field /\
+  NoDup GF2_elts /\ (forall x : GF2Field, In x GF2_elts).
+Proof.
+  split; [apply is_prime_small_correct; reflexivity|]. split; [apply zp_elts_nodup|].
+  split; [apply zp_elts_all; reflexivity|]. split; [reflexivity|]. split; [exact GF4_elts_nodup|].
+  split; [exact GF4_elts_all|]. split; [reflexivity|]. split; [reflexivity|]. split; [exact GF2_elts_nodup|exact GF2_elts_all].
 Qed.
 
 (** GF(2^8): 0x53 & 0xCA, |, ~ through the protocol formulas *)
